@@ -438,6 +438,73 @@ func TestAliasTable(t *testing.T) {
 	evid.Exhaustive("alias ways x write ways", n)
 }
 
+// TestLiteralReevaluation: a collection literal that is evaluated more than once (in a loop, in two statements)
+// yields a fresh collection each time: a write through one result is not visible in the next.
+func TestLiteralReevaluation(t *testing.T) {
+	lits := []func() *gen.Node{
+		func() *gen.Node { return gen.NList(gen.NInt(10), gen.NInt(20)) },
+		func() *gen.Node { return gen.NList(gen.NStr("a"), gen.NFloat(0.5), gen.NBool(true), gen.NNil()) },
+		func() *gen.Node { return gen.NList(gen.NList(gen.NInt(1), gen.NInt(2)), gen.NInt(3)) },
+		func() *gen.Node { return gen.NMap(gen.NStr("k"), gen.NInt(1), gen.NStr("j"), gen.NStr("s")) },
+		func() *gen.Node { return gen.NMap(gen.NStr("k"), gen.NList(gen.NInt(1), gen.NInt(2))) },
+		func() *gen.Node { return gen.NList(gen.NMap(gen.NStr("k"), gen.NInt(1))) },
+		func() *gen.Node { return gen.NList() },
+		func() *gen.Node { return gen.NMap() },
+	}
+	// writes applicable to each literal (index path of the written element)
+	paths := [][][]*gen.Node{
+		{{gen.NInt(1)}, {gen.NInt(-2)}},
+		{{gen.NInt(0)}, {gen.NInt(3)}},
+		{{gen.NInt(0), gen.NInt(1)}, {gen.NInt(1)}, {gen.NInt(0)}},
+		{{gen.NStr("k")}, {gen.NStr("new")}},
+		{{gen.NStr("k"), gen.NInt(0)}, {gen.NStr("k")}},
+		{{gen.NInt(0), gen.NStr("k")}, {gen.NInt(0), gen.NStr("z")}},
+		{},
+		{{gen.NStr("z")}},
+	}
+	n := 0
+	for li, lit := range lits {
+		for _, path := range paths[li] {
+			for loop := 0; loop < 4; loop++ {
+				for _, op := range []string{"=", "+="} {
+					idx := func() *gen.Node {
+						var ix []*gen.Node
+						for _, p := range path {
+							ix = append(ix, p.Clone())
+						}
+						return gen.NIndex(id("x"), ix...)
+					}
+					body := []*gen.Node{
+						gen.NSet("x", lit()),
+						gen.NCall("probe", gen.NStr("fresh"), id("x")),
+						gen.NAssign(op, []*gen.Node{idx()}, []*gen.Node{gen.NInt(100)}),
+						gen.NCall("probe", gen.NStr("written"), id("x")),
+					}
+					var prog []*gen.Node
+					switch loop {
+					case 0:
+						prog = []*gen.Node{gen.NForIn("e", gen.NList(gen.NInt(1), gen.NInt(2), gen.NInt(3)), body)}
+					case 1:
+						prog = []*gen.Node{gen.NFor(gen.NSet("i", gen.NInt(0)), gen.NBin("<", id("i"), gen.NInt(3)), gen.NSet("i", gen.NBin("+", id("i"), gen.NInt(1))), body)}
+					case 2:
+						prog = append(append([]*gen.Node{}, body...), gen.NSet("y", lit()), gen.NCall("probe", gen.NStr("second literal"), id("y"), id("x")))
+					default:
+						// the literal as an operand: keep = [] ; keep grows with each pass's collection
+						prog = []*gen.Node{gen.NSet("keep", gen.NList(gen.NNil(), gen.NNil(), gen.NNil())),
+							gen.NFor(gen.NSet("i", gen.NInt(0)), gen.NBin("<", id("i"), gen.NInt(3)), gen.NSet("i", gen.NBin("+", id("i"), gen.NInt(1))),
+								append(body, gen.NAssign("=", []*gen.Node{gen.NIndex(id("keep"), id("i"))}, []*gen.Node{id("x")}))),
+							gen.NCall("probe", gen.NStr("kept"), id("keep"))}
+					}
+					c := sem.NewCase(gen.FixAll(prog))
+					judge(t, "literal-reeval", c, fmt.Sprintf("reeval/%d/%s/%d/%s", li, gen.Print([]*gen.Node{idx()}, gen.Minimal{}), loop, op), true, "literal-reevaluation")
+					n++
+				}
+			}
+		}
+	}
+	evid.Exhaustive("collection literal evaluated repeatedly x written element x loop form x {=, +=}", n)
+}
+
 func TestReplays(t *testing.T) {
 	files, _ := filepath.Glob(filepath.Join(evid.Dir(), "replays", prop, "*.json"))
 	if r := os.Getenv("VERIF_REPLAY"); r != "" {
